@@ -622,10 +622,7 @@ func (fc *FnCtx) evalSliceExpr(st *State, x *ast.SliceExpr) Val {
 			hi = fc.toIdx(fc.eval1(st, x.High))
 		}
 		fc.assert(st, and(fc.leIdx(zero, lo), fc.leIdx(lo, hi), fc.leIdx(hi, app("gs.len", base.T))), "bounds", "string slice bounds", x.Pos())
-		fc.declareOnce("gs.sub", fmt.Sprintf("(declare-fun gs.sub (Str %s %s) Str)", fc.I(), fc.I()))
-		fc.declareAxiomOnce("gs.sub.ax", "gs.sub", fmt.Sprintf("(assert (forall ((s Str) (a %s) (b %s)) (! (=> (and %s %s) (= (gs.len (gs.sub s a b)) %s)) :pattern ((gs.sub s a b)))))", fc.I(), fc.I(), fc.leIdx(fc.idxLit(0), "a"), fc.leIdx("a", "b"), fc.subIdx("b", "a")))
-		fc.declareAxiomOnce("gs.sub.ax2", "gs.sub", fmt.Sprintf("(assert (forall ((s Str) (a %s) (b %s) (i %s)) (! (= (gs.at (gs.sub s a b) i) (gs.at s %s)) :pattern ((gs.at (gs.sub s a b) i)))))", fc.I(), fc.I(), fc.I(), fc.addIdx("a", "i")))
-		return Val{T: app("gs.sub", base.T, lo, hi), Ty: fc.typeOf(x)}
+		return Val{T: fc.strSub(base.T, lo, hi), Ty: fc.typeOf(x)}
 	case *types.Array:
 		fc.fail(x.Pos(), "slicing an array value (only via pointer or addressable local: outside subset)")
 	}
@@ -901,4 +898,14 @@ func (fc *FnCtx) viewShift(st *State, base Val, lo string, elem types.Type) {
 	I := fc.I()
 	fc.assume(st, fmt.Sprintf("(forall ((c (Array %s %s)) (i %s)) (! (= (%s c %s i) (%s c %s %s)) :pattern ((%s c %s i))))",
 		I, fc.sortOf(elem), I, fn, fc.addIdx(off, lo), fn, off, fc.addIdx("i", lo), fn, fc.addIdx(off, lo)))
+}
+
+// strSub: the substring s[lo:hi] as an uninterpreted term with its length and character axioms.
+func (fc *FnCtx) strSub(s, lo, hi string) string {
+	fc.declareOnce("gs.sub", fmt.Sprintf("(declare-fun gs.sub (Str %s %s) Str)", fc.I(), fc.I()))
+	fc.declareAxiomOnce("gs.sub.ax", "gs.sub", fmt.Sprintf("(assert (forall ((s Str) (a %s) (b %s)) (! (=> (and %s %s) (= (gs.len (gs.sub s a b)) %s)) :pattern ((gs.sub s a b)))))", fc.I(), fc.I(), fc.leIdx(fc.idxLit(0), "a"), fc.leIdx("a", "b"), fc.subIdx("b", "a")))
+	// characters of a substring: only inside its range (unguarded, two empty substrings taken at different offsets of
+	// one string - both equal to the unique empty string - would have to agree on their "character 0")
+	fc.declareAxiomOnce("gs.sub.ax2", "gs.sub", fmt.Sprintf("(assert (forall ((s Str) (a %s) (b %s) (i %s)) (! (=> (and %s %s %s %s) (= (gs.at (gs.sub s a b) i) (gs.at s %s))) :pattern ((gs.at (gs.sub s a b) i)))))", fc.I(), fc.I(), fc.I(), fc.leIdx(fc.idxLit(0), "a"), fc.leIdx("a", "b"), fc.leIdx(fc.idxLit(0), "i"), fc.ltIdx("i", fc.subIdx("b", "a")), fc.addIdx("a", "i")))
+	return app("gs.sub", s, lo, hi)
 }
